@@ -1045,3 +1045,6 @@ PROPS["C13"]["also"] = [("C12", "two_gap_polls_per_visit")]
 PROPS["C04"]["domains"] = list(PROPS["C04"]["domains"]) + ["fdl"]
 PROPS["C04"]["also"] = [("C15", "reply_invalid")]
 PROPS["C06"]["also"] = [("C05", "panic")]
+#  C07 "a peripheral that stops answering is reported Offline / one that answers again is reported Online and Configured" is the
+#      event life-cycle monitored as C14's cycle_events codes 1405 (event word rejected) and 1406 (is_live / is_running inconsistent with events).
+PROPS["C07"]["also"] = [("C14", "cycle_events:1405"), ("C14", "cycle_events:1406")]
